@@ -217,6 +217,9 @@ pub fn subjects() -> Vec<Subject> {
         // (state leaking between searchers shows up when sizes differ)
         Subject { name: "std-cnfa-len1", pats: vec![b("x"), b("y")], mk: Kind::Std, kind: ContiguousNFA, ci: false },
         Subject { name: "std-dfa-len10", pats: vec![b("abcdefghij"), b("xy")], mk: Kind::Std, kind: DFA, ci: false },
+        // packed prefilter with a pattern inside another: an earliest search
+        // may legitimately return either occurrence, but always the same one
+        Subject { name: "lf-dfa-packed-overlap", pats: vec![b("abcd"), b("bc"), b("xyz"), b("qrs")], mk: Kind::LF, kind: DFA, ci: false },
     ]
 }
 
@@ -253,7 +256,7 @@ impl Subject {
     }
 }
 
-pub const NOPS: usize = 17;
+pub const NOPS: usize = 19;
 static CUR_OP: Mutex<String> = Mutex::new(String::new());
 
 pub fn op_name(op: usize) -> &'static str {
@@ -261,7 +264,7 @@ pub fn op_name(op: usize) -> &'static str {
         "find(dense)", "find(long)", "is_match(dense)", "is_match(no match)", "find_iter(dense)", "find_iter(long)",
         "overlapping stepwise(dense)", "stream_find_iter(sparse)", "replace_all_bytes(dense)", "replace_all_bytes(long)",
         "earliest find(sparse)", "anchored find_iter(dense)", "find(span of long)", "overlapping_iter(sparse)", "clone().find_iter(sparse)",
-        "find_iter(5000 bytes)", "stream_find_iter(70000 bytes)",
+        "find_iter(5000 bytes)", "stream_find_iter(70000 bytes)", "find_iter(160 adjacent matches)", "earliest find(long)",
     ][op]
 }
 
@@ -337,6 +340,17 @@ pub fn run_op(ac: &AhoCorasick, s: &Subject, op: usize) -> String {
                     }
                 }
             }
+            17 => {
+                // repetition-heavy: many adjacent matches (trips adaptive
+                // heuristics such as "prefilter not effective" counters)
+                let mut h = vec![];
+                for k in 0..160 {
+                    h.extend_from_slice(&s.pats[k % s.pats.len().min(2)]);
+                }
+                let n = ac.find_iter(&h).take(2000).count();
+                format!("{} matches", n)
+            }
+            18 => format!("{:?}", ac.try_find(Input::new(&long).earliest(true)).map(|o| o.map(fm)).map_err(|e| e.to_string())),
             _ => "?".into(),
         }
     }));
